@@ -45,3 +45,8 @@ def validate_ip_spec(n=600):
     if bad:
         raise AssertionError(f"spec grammar disagrees with ipaddress on {bad[:5]}")
     return {"candidates": cnt, "disagreements": 0}
+
+
+def date_formats():
+    from pregex.meta.essentials import Date
+    return list(Date._Date__date_formats())
